@@ -653,5 +653,9 @@ PROPS["C11"]["explanation"] += " (REUSEOLD) whether a rewritten annotation's old
 PROPS["C01"]["rules"] = PROPS["C01"]["rules"] + [rules_limits.rule_clamp_sign_checked]
 PROPS["C01"]["explanation"] += " (NEGCLAMP) a request the read routines clamp to `length - posn` is compared with 0 before it is used (the position may lie beyond the end)."
 
+PROPS["C10"]["rules"] = PROPS["C10"]["rules"] + [rules_attr.rule_xdr_encode_source]
+PROPS["C10"]["explanation"] += " (XDRENC) a local handed to a bidirectional XDR primitive has been loaded from the object being encoded."
+PROPS["C15"]["rules"] = PROPS["C15"]["rules"] + [rules_attr.rule_xdr_encode_source]
+
 NOT_APPLICABLE = {}
 
